@@ -1,6 +1,6 @@
 (* Props/C08.v — C08: the CSS parser emits a well-nested, token-conserving grammar stream.
    Statements only; each is closed by [exact] of a lemma proved under CssParse/. *)
-From Verif Require Import Common.Base Common.Lx Css.Model CssParse.Model CssParse.Hash CssParse.Proofs CssParse.Trace CssParse.Conserve CssParse.WellFormed.
+From Verif Require Import Common.Base Common.Lx Css.Model CssParse.Model CssParse.Hash CssParse.Proofs CssParse.Trace CssParse.Conserve CssParse.Order CssParse.WellFormed.
 
 (* parseAtRule classifies at-rules through css.ToHash: over the table generated from /repo/css/hash.go, ToHash
    never indexes out of range and returns the constant of the name for exactly the seven names of the table
@@ -52,11 +52,26 @@ Print Assumptions cssparse_nesting.
    element of css_lex d - or one of the synthesised forms: the single space, the empty token of a ruleset, the '}'
    that ended the previous unit, ErrorToken/nil, a lower-cased copy, the IE-hack token ('*' glued to the following
    lexer token), or, for a custom property, a value that is an exact slice of the source text.
-   MISSING: that the reported tokens appear in source order (covered by the conservation oracle only). *)
+   MISSING: the source order of the Values() of ErrorGrammar units (for all other units cssparse_source_order below). *)
 Theorem cssparse_conservation_partial : forall d inline n tr, parse_run n (new_parser d inline) = POk tr ->
   Forall (fun r => reported_ok d (snd r)) tr.
 Proof. exact cssparse_conservation_proof. Qed.
 Print Assumptions cssparse_conservation_partial.
+
+(* C08 (source order): on every input, in both modes and for every number of calls, the tokens reported along the
+   run - data of every unit but ErrorGrammar, then Values() of AtRule / BeginAtRule / BeginRuleset / Declaration /
+   CustomProperty units (reported, Order.v) - form a chain: dropping the synthesised ones (space, empty, the '}' that
+   ended the previous unit, ErrorToken/nil), each stems from an interval [a, b) of the input (src): a lexer token is
+   the token the lexer returns at position a and ends at b, a lower-cased copy has the interval of its original, a
+   custom-property value is exactly the bytes [a, b), and the IE-hack token spans its '*' and the token glued to it
+   (the known finding conservation-iehack, stated as the exact exception S_glued); these intervals are pairwise
+   disjoint and increase along the run.  So the reported source tokens are a subsequence of the lexer's tokens in
+   source order and none is reported twice.  ErrorGrammar units are left out: their data repeats a token of their
+   Values(), and at the end of the input their Values() are those of an earlier unit. *)
+Theorem cssparse_source_order : forall d inline n tr, parse_run n (new_parser d inline) = POk tr ->
+  chain d 0 (concat (map reported tr)) (len d).
+Proof. exact cssparse_source_order_proof. Qed.
+Print Assumptions cssparse_source_order.
 
 (* ... where a lexer token of d is an element of the lexer's token list of d *)
 Theorem cssparse_lexer_tok_in_lex : forall d t b, lexer_tok d t b ->
@@ -65,14 +80,22 @@ Proof. exact lexer_tok_in_lex. Qed.
 Print Assumptions cssparse_lexer_tok_in_lex.
 
 (* C08 (partial): a stylesheet whose lexer token list is a sequence of rulesets
-       ws? ident ws? '{' ( ws? ident ws? ':' ws? value ws? ';' )* ws? '}'          followed by  ws?
-   (ws: a Whitespace token; value: one Ident / Number / Dimension / Percentage / Hash / String token; no comments)
-   yields exactly, for every rule in order, BeginRuleset with Values() = [selector], one Declaration with the
-   lower-cased property name and Values() = [value] per declaration, EndRuleset - and then the end-of-input report;
-   no parse error is reported, and none of the whitespace tokens shows up in Values() (the whitespace rule for
-   the positions of this grammar: before and after a selector, a property name, ':', a value, ';', '{', '}').
-   MISSING: at-rules, custom properties, nested rulesets, comments, CDO/CDC, multi-token selectors and values and
-   the whitespace rule between their tokens (covered by the well-formed-stylesheet oracle only). *)
+       (ws? selector-token)+ ws? '{' ( ws? ident ws? ':' (ws? value-token)+ ws? ';' )* ws? '}'      followed by  ws?
+   (ws: a Whitespace token; selector-/value-token: any token but whitespace, comment, '{', '}', ';', with brackets
+   and function parentheses balanced - toks_ok / lv_after; the first selector token is none of CDO, CDC, at-keyword,
+   custom-property name - sel_first; no comments)
+   yields exactly, for every rule in order,
+   - BeginRuleset with Values() = expected_sel: the selector tokens in order with a single space token exactly where
+     the source has whitespace between two tokens neither of which is a combinator  , > + ~  and that are not inside
+     an attribute selector [ ] (whitespace before the first token and before '{' is dropped);
+   - one Declaration per declaration with the lower-cased property name and Values() = expected_vals: the value
+     tokens in order with a single space token exactly where the source has whitespace between two value tokens
+     neither of which is one of the punctuation bytes  , / : ! =  (whitespace before the first and after the last
+     value token, around ':' and ';', '{' and '}' is dropped);
+   - EndRuleset;
+   and then the end-of-input report; no parse error is reported.
+   MISSING: at-rules, custom properties, nested rulesets, comments, CDO/CDC (covered by the well-formed-stylesheet
+   oracle only). *)
 Theorem cssparse_wellformed_partial : forall d rules w,
   css_lex d = LexDone (concat (map rule_toks rules) ++ optws w) -> Forall rule_ok rules ->
   exists tr, parse_run (length (concat (map rule_units rules)) + 1) (new_parser d false) = POk tr /\
